@@ -3094,7 +3094,9 @@ def update_working_tree(
                             f"Please commit your changes or stash them before you switch branches."
                         )
 
-    # Apply the changes
+    # Apply the changes: all removals first, so that a directory whose
+    # files go away can be replaced by a file or symlink of the same name
+    # ("d/x" is listed after "d"), then the additions.
     for change in changes:
         if change.type in (CHANGE_DELETE, CHANGE_RENAME):
             # Remove file/directory
@@ -3124,6 +3126,7 @@ def update_working_tree(
 
             _transition_to_absent(repo, path, full_path, delete_stat, index)
 
+    for change in changes:
         if change.type in (
             CHANGE_ADD,
             CHANGE_MODIFY,
